@@ -12,7 +12,7 @@ import (
 func init() {
 	register("C10", &ruleSet{
 		run:    runC10,
-		floors: map[string]int{"O1": 4, "O2": 3, "O3": 6, "O4": 2, "O5": 3},
+		floors: map[string]int{"O1": 7, "O2": 3, "O3": 6, "O4": 2, "O5": 5},
 		explain: "Decides the wake-up / hand-off protocol discipline, which is exactly where lost wake-ups live: (O1) condition-variable waiters: the failing delegate.Acquire " +
 			"that leads to waiting and the registration on the condition are in one critical section of the condition's lock; (O2) signallers: every Broadcast/Signal is issued " +
 			"with that lock held after the state change; O1 and O2 together are the textbook sufficient discipline, and if either fails there is a schedule that parks the waiter " +
@@ -537,6 +537,10 @@ func c10Queue(p *Prog, l *Ledger, locks *LockInfo) {
 				delivers = append(delivers, call)
 			}
 		})
+		if acq != nil && len(delivers) > 0 && len(evicts) == 0 && f.Signature.Recv() != nil {
+			l.Bad("O5", p.Key(f)+"/evict-with-token", p.At(acq), "the hand-off acquires for a waiter and delivers to it, but never calls the waiter's eviction function: the waiter left the backlog some other way (popped before a token was held for it?), so a refused acquire loses it")
+			continue
+		}
 		if acq == nil || len(evicts) == 0 || len(delivers) == 0 {
 			continue
 		}
@@ -593,6 +597,12 @@ func c10Queue(p *Prog, l *Ledger, locks *LockInfo) {
 				}
 				ne++
 				locked := false
+				// a helper that every caller enters with an exclusive lock held starts locked
+				for _, ex := range locks.Held(f.Blocks[0].Instrs[0]) {
+					if ex {
+						locked = true
+					}
+				}
 				pa.Each(func(step int, ins ssa.Instruction) bool {
 					call, ok := ins.(*ssa.Call)
 					if !ok {
